@@ -241,6 +241,31 @@ def bdf_restart_rule(rep, f):
             rep.violation("R-MODIFIED-REEVAL", key, "; ".join(probs), a.get("sp"))
         else:
             rep.ok("R-MODIFIED-REEVAL", key, "d[0]<-y, d[1]<-h*f0, d[k>=2]<-0, order<-1")
+    # the first difference d[1] = h*f(x, y) is a state increment: it must carry the direction of integration
+    # (f is odd under time reflection, the step magnitude is even), and the two restarts must build it the same way
+    body_all = body["body"]
+    dir_ids = {l["pat"]["id"] for l in tast.find(body_all, lambda z: z.get("k") == "Let" and z["pat"].get("k") == "PBind" and z.get("init") is not None
+                                                 and z["init"].get("k") == "MethodCall" and z["init"].get("name") == "signum")}
+    forms = []
+    for j, a in enumerate(arms):
+        st = [x for x in tast.find(a["body"], lambda z: z.get("k") == "Assign" and z["l"].get("k") == "Index" and z["l"]["e"].get("k") == "Index"
+                                   and z["l"]["e"]["i"].get("k") == "Lit" and str(z["l"]["e"]["i"].get("v")) == "1")]
+        if len(st) != 1:
+            forms.append(None)
+            continue
+        rhs = st[0]["r"]
+        forms.append(tast.render(rhs))
+        key = "R-MODIFIED-REEVAL:%s:history-restart:%s:direction" % (fn, "initial" if j == 0 else "per-step")
+        if tast.contains(rhs, lambda z: z.get("k") == "Path" and z.get("id") in dir_ids):
+            rep.ok("R-MODIFIED-REEVAL", key, "d[1] = %s carries the direction of integration" % tast.render(rhs))
+        else:
+            rep.violation("R-MODIFIED-REEVAL", key, "the restarted first difference d[1] = %s does not carry the direction of integration (wrong sign when integrating backward)"
+                          % tast.render(rhs), st[0].get("sp"))
+    key = "R-MODIFIED-REEVAL:%s:history-restart:d1-siblings" % fn
+    if None not in forms and forms[0] == forms[1]:
+        rep.ok("R-MODIFIED-REEVAL", key, "both restarts build d[1] as %s" % forms[0])
+    elif None not in forms:
+        rep.violation("R-MODIFIED-REEVAL", key, "the initial and the per-step ModifiedSolution restarts build the first difference differently: %s vs %s" % (forms[0], forms[1]), arms[1].get("sp"))
     # the two arms are siblings: identical effect sequences
     r0 = tast.render_block(arms[0]["body"])
     r1 = tast.render_block(arms[1]["body"])
